@@ -4,7 +4,7 @@
 name=$1; shift
 d=$(mktemp -d /tmp/tryseed-XXXXXX)
 git -C /repo archive HEAD vc2_conformance | tar -x -C $d
-(cd $d && patch -s -p1 < /verif/seeded/$name/patch.diff) || { echo "patch failed"; rm -rf $d; exit 2; }
+(cd $d && patch -s -p1 < $( [ -f "$name" ] && echo "$name" || echo /verif/seeded/$name/patch.diff )) || { echo "patch failed"; rm -rf $d; exit 2; }
 for pid in "$@"; do
   (cd /verif && /venv/bin/python -m vcheck $pid --tier quick --no-write --repo $d | grep -E "^  finding|=>|ANALYSIS" | cut -c1-${COLS:-400})
 done
